@@ -326,6 +326,12 @@ def netspec(draw, prof):
             nd["server_priority"] = draw(st.sampled_from(["id_desc", "busy_time", "id_parity"]))
         nodes.append(nd)
 
+    if any(nd.get("ps") for nd in nodes):
+        # Processor-sharing nodes are only specified for networks without blocking into / out of them (C19);
+        # PSNode keeps "serving" a blocked customer.  Precondition of the generator: PS => no finite queues.
+        for nd in nodes:
+            nd["cap"] = "inf"
+
     # ---- priorities
     prios = [0] * ncls
     if (on["priorities"] or on["prio_preempt"]) and ncls > 1:
